@@ -17,6 +17,7 @@ mod lockrec;
 mod ovl;
 mod pipeline;
 mod prepsync;
+mod extrange;
 mod overflow;
 mod stress;
 mod triepos;
@@ -68,6 +69,7 @@ fn main() {
         "alloc-lookup" => alloc::run_lookup(seed, cases, &mut sink),
         "wal" => wal::run(seed, cases, &mut sink),
         "prepsync" => prepsync::run(seed, cases, &mut sink),
+        "extrange" => extrange::run(seed, cases, &mut sink),
         "overlay-index" => ovl::run(seed, cases, &mut sink),
         "bitops" => bitops::run(seed, cases, &mut sink),
         "bitops-node" => bitops::run_nodes(seed, cases, &mut sink),
